@@ -404,6 +404,16 @@ def adversarial(quick):
             a = t.wire('a', 4); wa = t.wire('w_a', 4); p.Not(t, 'n', I[0], a); p.Not(t, 'm', a, wa); p.Add(t, 'q', a, wa, O[0])
         return make_top(p, [('x', 4)], [('r', 4)], body)
     A(Case('no_collide[wires a and w_a]', 'adversarial', {'kind': 'wires_a_w_a'}, b_w3))
+    # names that merely LOOK like generated ones (w_ / i_ / reserved_ prefixes) with nothing to collide with: legal, one declaration each,
+    # on the top module and on the ports of an instantiated child (header, body and connection must agree)
+    for pin, pout in (('w_data', 'w_q'), ('w_en', 'r'), ('i_data', 'i_q'), ('reserved_x', 'w_reserved_y'), ('w_w_a', 'w_')):
+        def b_look(p, pin=pin, pout=pout):
+            def body(t, I, O):
+                m = t.wire('m', 4); k = t.wire('k', 4)
+                p.Not(t, 'n', I[0], m); p.Add(t, 'q', m, I[0], k)
+                make_inner(p, t, 'u0', [(pin, k), ('b', I[0])], [(pout, O[0])], lambda tt, II, OO: p.And2(tt, 'g', II[0], II[1], OO[0]), clsname='InnerLook')
+            return make_top(p, [(pin, 4)], [(pout, 4)], body)
+        A(Case('lookalike[%s,%s]' % (pin, pout), 'adversarial', {'kind': 'lookalike_prefix', 'in': pin, 'out': pout}, b_look))
     def b_i(p):
         def body(t, I, O):
             a = t.wire('a', 4); p.Add(t, 'x', I[0], I[0], a); p.Add(t, 'i_x', a, I[0], O[0])
